@@ -78,7 +78,7 @@ func gen(rt *rapid.T) any {
 	if r.Prog.Corpus == "" {
 		r.Prog.ForceImports = gencommon.ForceImports(rt)
 	}
-	r.Front = gencommon.Front(rt, gencommon.FrontSpec{Faults: []string{"discard_ref", "abort_stmt", "abort_init", "discard_reset"}, MaxFaults: 3, Constructs: []string{"vblock", "inline_closure", "bigint_op", "unit_lit", "unsafe_ref", "bti_call", "generic_decl", "generic_inst"}, FileAssign: true, HandlerFlip: true, Writes: true, CompleteEarly: true})
+	r.Front = gencommon.Front(rt, gencommon.FrontSpec{Faults: []string{"discard_ref", "abort_stmt", "abort_init", "discard_reset"}, MaxFaults: 3, Constructs: []string{"vblock", "inline_closure", "bigint_op", "unit_lit", "unsafe_ref", "bti_call", "generic_decl", "generic_inst"}, FileAssign: true, HandlerFlip: true, Writes: true, CompleteEarly: true, FailedPrint: true})
 	r.Envs = []EnvSpec{
 		{Native: true},
 		{MapDflt: 0, PoolDflt: -1},
